@@ -35,10 +35,6 @@ func write(path, s string) {
 	must(os.WriteFile(path, []byte(s), 0o644))
 }
 
-func declSrc(env *ty.Env, d *ty.Decl, from string) string {
-	return fmt.Sprintf("type %s %s\n", d.Name, d.Under.Go(env, from))
-}
-
 type opw struct {
 	f  *os.File
 	id int
@@ -49,6 +45,155 @@ func (o *opw) op(name string, tyname string, args ...string) {
 	o.id++
 	o.n[name]++
 	fmt.Fprintf(o.f, "op %d %s %s %s\n", o.id, name, tyname, strings.Join(args, " "))
+}
+
+// G is the generation state shared by the per-plugin emitters.
+type G struct {
+	env   *ty.Env
+	vg    *gen.VGen
+	ow    *opw
+	m     *strings.Builder // body of main.init
+	q     *strings.Builder // current derive-call package
+	qn    string
+	i     int    // type index
+	tn    string // "T<i>"
+	t     *ty.Ty
+	gt    string // Go spelling of the type (same in q packages and main)
+	stats map[string]int
+	pool  []*ty.Val
+}
+
+// reg emits a registration of op `name` for the current type: `body` computes a string from x, y…
+func (g *G) reg(name string, nargs int, body string) {
+	fmt.Fprintf(g.m, "\trt.Reg(%q, %q, func(c *rt.Ctx, a []*rt.SExp) string {\n", name, g.tn)
+	for k := 0; k < nargs; k++ {
+		fmt.Fprintf(g.m, "\t\t%c := c.Build(t%d, a[%d]).Interface().(%s)\n", "xyzw"[k], g.i, k, g.gt)
+	}
+	fmt.Fprintf(g.m, "\t\t%s\n\t})\n", body)
+}
+
+func (g *G) pairs(f func(ai, bi int, x, y *ty.Val)) {
+	for ai, a := range g.pool {
+		for bi, b := range g.pool {
+			f(ai, bi, g.vg.Inst(a), g.vg.Inst(b))
+		}
+	}
+}
+
+func (g *G) withMutations(f func(x, mu *ty.Val)) {
+	for _, a := range g.pool {
+		x := g.vg.Inst(a)
+		for _, mu := range g.vg.Mutations(g.t, x, 8) {
+			f(x, g.vg.Inst(mu)) // fresh objects: one address never denotes two contents
+		}
+	}
+}
+
+func (g *G) emitEqual() {
+	i, gt, q := g.i, g.gt, g.q
+	fmt.Fprintf(q, "\nfunc Equal_%d(a, b %s) bool { return deriveEqual_%d(a, b) }\n", i, gt, i)
+	fmt.Fprintf(q, "func EqualC_%d(a, b %s) bool { return deriveEqualC_%d(a)(b) }\n", i, gt, i)
+	g.reg("equal", 2, fmt.Sprintf("return rt.Bool(%s.Equal_%d(x, y))", g.qn, i))
+	g.reg("equalc", 2, fmt.Sprintf("return rt.Bool(%s.EqualC_%d(x, y))", g.qn, i))
+	asField := gen.SupportedEqualField(g.env, g.t)
+	if asField {
+		fmt.Fprintf(q, "type FWE_%d struct{ F %s }\n", i, gt)
+		fmt.Fprintf(q, "func EqualF_%d(a, b %s) bool { return deriveEqualF_%d(&FWE_%d{a}, &FWE_%d{b}) }\n", i, gt, i, i, i)
+		g.reg("equalf", 2, fmt.Sprintf("return rt.Bool(%s.EqualF_%d(x, y))", g.qn, i))
+	}
+	g.pairs(func(ai, bi int, x, y *ty.Val) {
+		g.ow.op("equal", g.tn, x.Wire(), y.Wire())
+		if asField && (ai+bi)%3 == 0 {
+			g.ow.op("equalf", g.tn, x.Wire(), y.Wire())
+		}
+		if (ai+bi)%4 == 0 {
+			g.ow.op("equalc", g.tn, x.Wire(), y.Wire())
+		}
+	})
+	for _, a := range g.pool {
+		x := g.vg.Inst(a)
+		g.ow.op("equal", g.tn, x.Wire(), x.Wire()) // aliased: the very same objects on both sides
+	}
+	g.withMutations(func(x, mu *ty.Val) {
+		g.ow.op("equal", g.tn, x.Wire(), mu.Wire())
+		g.ow.op("equal", g.tn, mu.Wire(), x.Wire())
+		if asField {
+			g.ow.op("equalf", g.tn, x.Wire(), mu.Wire())
+		}
+	})
+}
+
+func (g *G) emitCompare(withEqual bool) {
+	i, gt, q := g.i, g.gt, g.q
+	fmt.Fprintf(q, "\nfunc Compare_%d(a, b %s) int { return deriveCompare_%d(a, b) }\n", i, gt, i)
+	fmt.Fprintf(q, "func CompareC_%d(a, b %s) int { return deriveCompareC_%d(a)(b) }\n", i, gt, i)
+	fmt.Fprintf(q, "type FWC_%d struct{ F %s }\n", i, gt)
+	// a one-field wrapper: the result of comparing the wrappers is the field expression's value
+	fmt.Fprintf(q, "func CompareF_%d(a, b %s) int { return deriveCompareF_%d(&FWC_%d{a}, &FWC_%d{b}) }\n", i, gt, i, i, i)
+	g.reg("compare", 2, fmt.Sprintf("return rt.Int(%s.Compare_%d(x, y))", g.qn, i))
+	g.reg("comparec", 2, fmt.Sprintf("return rt.Int(%s.CompareC_%d(x, y))", g.qn, i))
+	g.reg("comparef", 2, fmt.Sprintf("return rt.Int(%s.CompareF_%d(x, y))", g.qn, i))
+	if withEqual {
+		g.reg("cmpeq", 2, fmt.Sprintf("return rt.Bool((%s.Compare_%d(x, y) == 0) == %s.Equal_%d(x, y))", g.qn, i, g.qn, i))
+	}
+	g.pairs(func(ai, bi int, x, y *ty.Val) {
+		g.ow.op("compare", g.tn, x.Wire(), y.Wire())
+		if withEqual {
+			g.ow.op("cmpeq", g.tn, x.Wire(), y.Wire())
+		}
+		if (ai+bi)%3 == 0 {
+			g.ow.op("comparef", g.tn, x.Wire(), y.Wire())
+		}
+		if (ai+bi)%4 == 0 {
+			g.ow.op("comparec", g.tn, x.Wire(), y.Wire())
+		}
+	})
+	for _, a := range g.pool {
+		x := g.vg.Inst(a)
+		g.ow.op("compare", g.tn, x.Wire(), x.Wire())
+	}
+	g.withMutations(func(x, mu *ty.Val) {
+		g.ow.op("compare", g.tn, x.Wire(), mu.Wire())
+		g.ow.op("compare", g.tn, mu.Wire(), x.Wire())
+		g.ow.op("comparef", g.tn, mu.Wire(), x.Wire())
+		if withEqual {
+			g.ow.op("cmpeq", g.tn, x.Wire(), mu.Wire())
+		}
+	})
+}
+
+func (g *G) emitHash(withEqual bool) {
+	i, gt, q := g.i, g.gt, g.q
+	fmt.Fprintf(q, "\nfunc Hash_%d(a %s) uint64 { return deriveHash_%d(a) }\n", i, gt, i)
+	fmt.Fprintf(q, "type FWH_%d struct{ F %s }\n", i, gt)
+	// hash of the one-field wrapper is 31*17 + field expression: the driver subtracts the constant
+	fmt.Fprintf(q, "func HashF_%d(a %s) uint64 { return deriveHashF_%d(&FWH_%d{a}) - 31*17 }\n", i, gt, i, i)
+	g.reg("hash", 1, fmt.Sprintf("s0 := rt.NewObs().Observe(reflect.ValueOf(&x).Elem())\n\t\th := %s.Hash_%d(x)\n\t\th2 := %s.Hash_%d(x)\n\t\tif h != h2 || s0 != rt.NewObs().Observe(reflect.ValueOf(&x).Elem()) {\n\t\t\treturn \"impure\"\n\t\t}\n\t\treturn rt.U64(h)", g.qn, i, g.qn, i))
+	g.reg("hashf", 1, fmt.Sprintf("return rt.U64(%s.HashF_%d(x))", g.qn, i))
+	if withEqual {
+		g.reg("hasheq", 2, fmt.Sprintf("return rt.Bool(!%s.Equal_%d(x, y) || %s.Hash_%d(x) == %s.Hash_%d(y))", g.qn, i, g.qn, i, g.qn, i))
+	}
+	for _, a := range g.pool {
+		x := g.vg.Inst(a)
+		g.ow.op("hash", g.tn, x.Wire())
+		g.ow.op("hashf", g.tn, x.Wire())
+		if withEqual {
+			for _, v := range g.vg.EqVariants(x) {
+				g.ow.op("hasheq", g.tn, x.Wire(), v.Wire())
+				g.ow.op("hash", g.tn, v.Wire())
+			}
+		}
+	}
+	if withEqual {
+		g.pairs(func(ai, bi int, x, y *ty.Val) {
+			if (ai+bi)%2 == 0 {
+				g.ow.op("hasheq", g.tn, x.Wire(), y.Wire())
+			}
+		})
+	}
+	g.withMutations(func(x, mu *ty.Val) {
+		g.ow.op("hash", g.tn, mu.Wire())
+	})
 }
 
 func main() {
@@ -70,7 +215,7 @@ func main() {
 	ext.WriteString("// Package ext holds the imported declarations of the corpus.\npackage ext\n\n")
 	for _, d := range env.Decls {
 		if d.Pkg == "ext" {
-			ext.WriteString(declSrc(env, d, "ext"))
+			fmt.Fprintf(&ext, "type %s %s\n", d.Name, d.Under.Go(env, "ext"))
 		}
 	}
 	write(filepath.Join(*out, "ext", "ext.go"), ext.String())
@@ -81,7 +226,7 @@ func main() {
 	p.WriteString("package p\n\nimport \"corpus/ext\"\n\nvar _ ext.XN\n\n")
 	for _, d := range env.Decls {
 		if d.Pkg == "" {
-			p.WriteString(declSrc(env, d, ""))
+			fmt.Fprintf(&p, "type %s %s\n", d.Name, d.Under.Go(env, ""))
 		}
 	}
 	var qs []*strings.Builder
@@ -116,6 +261,16 @@ func main() {
 		if d.Priv {
 			flags += "p"
 		}
+		if d.Under.K == ty.Struct {
+			flags += "m"
+			for _, f := range d.Under.Fields {
+				if f.Name[0] >= 'a' && f.Name[0] <= 'z' {
+					flags += "1"
+				} else {
+					flags += "0"
+				}
+			}
+		}
 		if flags == "" {
 			flags = "-"
 		}
@@ -124,59 +279,28 @@ func main() {
 
 	opsf, err := os.Create(filepath.Join(*out, "ops.txt"))
 	must(err)
-	ow := &opw{f: opsf, n: map[string]int{}}
-	vg := gen.NewVGen(env, rng, cap)
-	stats := map[string]int{}
+	g := &G{env: env, vg: gen.NewVGen(env, rng, cap), ow: &opw{f: opsf, n: map[string]int{}}, m: &m, stats: map[string]int{}}
 
 	for i, t := range c.Types {
-		tn := fmt.Sprintf("T%d", i)
-		fmt.Fprintf(&prelude, "ty %s %s\n", tn, t.Wire())
-		gm := t.Go(env, "main")
-		gp := gm
+		g.i, g.t, g.tn = i, t, fmt.Sprintf("T%d", i)
+		fmt.Fprintf(&prelude, "ty %s %s\n", g.tn, t.Wire())
+		g.gt = t.Go(env, "main")
 		qi := pkgOf(t)
-		q := qs[qi]
-		qn := fmt.Sprintf("q%d", qi)
-		fmt.Fprintf(&m, "\tt%d := reflect.TypeOf((*%s)(nil)).Elem()\n\t_ = t%d\n", i, gm, i)
-		stats["head:"+kindName(env.Under(t).K)]++
+		g.q, g.qn = qs[qi], fmt.Sprintf("q%d", qi)
+		fmt.Fprintf(&m, "\tt%d := reflect.TypeOf((*%s)(nil)).Elem()\n\t_ = t%d\n", i, g.gt, i)
+		g.stats["head:"+kindName(env.Under(t).K)]++
+		g.pool = g.vg.Pool(t)
+		g.stats["pool"] += len(g.pool)
 
-		if want["equal"] && gen.SupportedEqual(env, t) {
-			fmt.Fprintf(q, "\nfunc Equal_%d(a, b %s) bool { return deriveEqual_%d(a, b) }\n", i, gp, i)
-			fmt.Fprintf(q, "func EqualC_%d(a, b %s) bool { return deriveEqualC_%d(a)(b) }\n", i, gp, i)
-			variants := []string{"", "C"}
-			asField := gen.SupportedEqualField(env, t)
-			if asField {
-				variants = append(variants, "F")
-				fmt.Fprintf(q, "type FW_%d struct{ F %s }\n", i, gp)
-				fmt.Fprintf(q, "func EqualF_%d(a, b %s) bool { return deriveEqualF_%d(&FW_%d{a}, &FW_%d{b}) }\n", i, gp, i, i, i)
-			}
-			for _, v := range variants {
-				opn := map[string]string{"": "equal", "C": "equalc", "F": "equalf"}[v]
-				fmt.Fprintf(&m, "\trt.Reg(%q, %q, func(c *rt.Ctx, a []*rt.SExp) string {\n\t\tx := c.Build(t%d, a[0]).Interface().(%s)\n\t\ty := c.Build(t%d, a[1]).Interface().(%s)\n\t\treturn rt.Bool(%s.Equal%s_%d(x, y))\n\t})\n", opn, tn, i, gm, i, gm, qn, v, i)
-			}
-			pool := vg.Pool(t)
-			stats["pool"] += len(pool)
-			for ai, a := range pool {
-				for bi, b := range pool {
-					x, y := vg.Inst(a), vg.Inst(b)
-					ow.op("equal", tn, x.Wire(), y.Wire())
-					if asField && (ai+bi)%3 == 0 {
-						ow.op("equalf", tn, x.Wire(), y.Wire())
-					}
-					if (ai+bi)%4 == 0 {
-						ow.op("equalc", tn, x.Wire(), y.Wire())
-					}
-				}
-				x := vg.Inst(a)
-				ow.op("equal", tn, x.Wire(), x.Wire()) // aliased: the very same objects on both sides
-				for _, mu := range vg.Mutations(t, x, 8) {
-					mu = vg.Inst(mu) // fresh objects: one address never denotes two contents
-					ow.op("equal", tn, x.Wire(), mu.Wire())
-					ow.op("equal", tn, mu.Wire(), x.Wire())
-					if asField {
-						ow.op("equalf", tn, x.Wire(), mu.Wire())
-					}
-				}
-			}
+		eq := gen.SupportedEqual(env, t)
+		if (want["equal"] || want["compare"] || want["hash"]) && eq {
+			g.emitEqual()
+		}
+		if want["compare"] && gen.SupportedCompare(env, t) {
+			g.emitCompare(eq)
+		}
+		if want["hash"] && gen.SupportedHash(env, t) {
+			g.emitHash(eq)
 		}
 	}
 	m.WriteString("}\n")
@@ -188,25 +312,25 @@ func main() {
 		write(filepath.Join(*out, fmt.Sprintf("q%d", qi), "q.go"), q.String())
 		fmt.Fprintf(&mh, "\t\"corpus/q%d\"\n", qi)
 	}
-	mh.WriteString("\t\"verifharness/rt\"\n)\n\nvar _ ext.XN\nvar _ p.NI\n\nfunc main() { rt.Main() }\n\nfunc init() {\n")
+	mh.WriteString("\t\"verifharness/rt\"\n)\n\nvar _ ext.XN\nvar _ p.NI\nvar _ reflect.Type\n\nfunc main() { rt.Main() }\n\nfunc init() {\n")
 	write(filepath.Join(*out, "main.go"), mh.String()+m.String())
-	stats["pkgs"] = len(qs)
+	g.stats["pkgs"] = len(qs)
 	write(filepath.Join(*out, "prelude.txt"), prelude.String())
 	write(filepath.Join(*out, "go.mod"), fmt.Sprintf("module corpus\n\ngo 1.24\n\nrequire verifharness v0.0.0\n\nreplace verifharness => %s\n", *harness))
 
 	var keys []string
-	for k := range stats {
+	for k := range g.stats {
 		keys = append(keys, k)
 	}
-	for k, v := range ow.n {
-		stats["ops:"+k] = v
+	for k, v := range g.ow.n {
+		g.stats["ops:"+k] = v
 		keys = append(keys, "ops:"+k)
 	}
 	sort.Strings(keys)
 	var sb strings.Builder
 	fmt.Fprintf(&sb, "{\"types\": %d", len(c.Types))
 	for _, k := range keys {
-		fmt.Fprintf(&sb, ", %q: %d", k, stats[k])
+		fmt.Fprintf(&sb, ", %q: %d", k, g.stats[k])
 	}
 	sb.WriteString("}\n")
 	write(filepath.Join(*out, "stats.json"), sb.String())
